@@ -2,7 +2,7 @@
    The signature scheme is arbitrary (a parameter of every theorem): the statements say
    which verifications, with which key over which bytes, a reported success rests on. *)
 From Model Require Import Bytes Prim Tables Cert KAC Mapping Sig LS RI Crypto.
-From Proofs Require Import CryptoProofs.
+From Proofs Require Import BytesLemmas CryptoProofs AuthRT.
 Open Scope Z_scope.
 
 (* LeaseSet2 / MetaLeaseSet: a valid signature under the destination's own key over the
@@ -61,3 +61,38 @@ Proof. exact offline_verify_sound. Qed.
 Example C05_nonvacuous_forged_offline_refused :
   final_queries (Some (repeatN 1 32)) 7 1 (Some (mkOff 0 7 (repeatN 2 32) (repeatN 3 64) 7)) [3%N] (repeatN 4 64) = None.
 Proof. vm_compute. reflexivity. Qed.
+
+(* "over exactly the bytes it was parsed from": for a PARSED structure whose re-serialisation
+   reproduces the consumed bytes — always for LeaseSet and EncryptedLeaseSet; for RouterInfo,
+   LeaseSet2 and MetaLeaseSet exactly when no option mapping holds slack (C01, finding D2) —
+   the message of the signature query is the received bytes minus the signature *)
+Theorem C05_router_info_over_received_bytes : forall verify d i r, wf d -> read_router_info d = Ok (i, r) ->
+  verdict verify (ri_verify_queries i) = true ->
+  forall b, router_info_bytes i = Ok b -> b ++ r = d ->
+  exists k, kac_signing_key (ri_ident i) = Some k /\
+            verify ALG_ED25519 k (covered d r (sig_bytes (ri_sig i))) (sig_bytes (ri_sig i)) = true.
+Proof. exact router_info_verified_over_wire. Qed.
+Theorem C05_leaseset_over_received_bytes : forall verify d l, wf d -> read_lease_set d = Ok l ->
+  verdict verify (ls_verify_queries l) = true ->
+  exists b r dk a, lease_set_bytes l = Ok b /\ b ++ r = d /\ kac_signing_key (ls_dest l) = Some dk /\
+    alg_of_type (kc_signing_type (k_kc (ls_dest l))) = Some a /\
+    verify a dk (covered d r (sig_bytes (ls_sig l))) (sig_bytes (ls_sig l)) = true.
+Proof. exact lease_set_verified_over_wire. Qed.
+Theorem C05_leaseset2_over_received_bytes : forall verify x l r, wf x -> read_lease_set2 x = Ok (l, r) ->
+  verdict verify (ls2_verify_queries l) = true ->
+  forall b, lease_set2_bytes l = Ok b -> b ++ r = x ->
+  exists dk, kac_signing_key (l2_dest l) = Some dk /\
+    verdict verify (final_queries (Some dk) (kc_signing_type (k_kc (l2_dest l))) (l2_flags l) (l2_offline l)
+                      (3%N :: covered x r (sig_bytes (l2_sig l))) (sig_bytes (l2_sig l))) = true.
+Proof. exact lease_set2_verified_over_wire. Qed.
+Theorem C05_meta_leaseset_over_received_bytes : forall verify x l r, wf x -> read_meta_lease_set x = Ok (l, r) ->
+  verdict verify (meta_verify_queries l) = true ->
+  forall b, meta_lease_set_bytes l = Ok b -> b ++ r = x ->
+  exists dk, kac_signing_key (ml_dest l) = Some dk /\
+    verdict verify (final_queries (Some dk) (kc_signing_type (k_kc (ml_dest l))) (ml_flags l) (ml_offline l)
+                      (7%N :: covered x r (sig_bytes (ml_sig l))) (sig_bytes (ml_sig l))) = true.
+Proof. exact meta_lease_set_verified_over_wire. Qed.
+Theorem C05_encrypted_leaseset_message_is_received_bytes : forall d l r, wf d -> read_encrypted_lease_set d = Ok (l, r) ->
+  els_bytes_without_sig l = covered d r (sig_bytes (el_sig l)).
+Proof. exact encrypted_leaseset_message_is_wire. Qed.
+Print Assumptions C05_meta_leaseset_over_received_bytes.
